@@ -9,6 +9,13 @@
 (*     patterns: "every byte distinct" (any stride / offset slip changes a *)
 (*     value), all 0xFF / 0x80 / 0x00 (sign bits of the 24 bit fixed point *)
 (*     and of the half floats, nan / inf halves), a second permutation;    *)
+(*     plus (round 5) EdgeCases: boundary values of every quantised field  *)
+(*     in every coordinate (pattern "edge"); FbCases: the fractional-bit   *)
+(*     count over its declared range 0..255; LadderCases: streams whose    *)
+(*     point count SplatFormat!LadderCount computes so that a multiple of  *)
+(*     a delivery granularity falls strictly inside a given array (content *)
+(*     "p251", a function of the index the judge recomputes);              *)
+(*     DeliveryCases: the file handed to the codec in pieces (dl);         *)
 (*  [kind |-> "cloud", unit |-> 1000, splats |-> <<[p, s, c, a, r]>>, ..]  *)
 (*     small splat clouds (0..3 splats) whose attributes are taken from    *)
 (*     edge-value tables in 1/1000: colours below / at / above the         *)
@@ -20,9 +27,12 @@
 (*   Tiles      the layout law names every payload byte exactly once and   *)
 (*              the total length is the formula (TilesPayload)             *)
 (*   Ordered    the arrays appear in the published order without overlap   *)
+(*   LadderLaw  a size-ladder stream is cut where it was built to be cut   *)
+(*   EdgeLaw    the boundary-value streams contain the whole ladder in     *)
+(*              every coordinate / channel                                 *)
 (*   HalfLaw    the half-float dequantiser maps 0x3C00 to 1, 0xC000 to -2, *)
 (*              0x0001 to 2^-24, 0x7C00 to +inf (sanity of the reference)  *)
-(* int32 budget: all numbers below 2^25.                                   *)
+(* int32 budget: all numbers below 2^25 (offsets of ladder streams < 2^22).*)
 (***************************************************************************)
 EXTENDS SplatFormat, Json, TLC
 
